@@ -325,15 +325,14 @@ impl<'a> dom::Element<'a> {
 }
 #[cfg(kani)]
 fn parse_stub<F: core::str::FromStr>(_s: &str) -> Result<F, F::Err> { Ok(unsafe { core::mem::zeroed() }) }       // only f64 widths are parsed here; the number is not the subject
-HARNESS(merge_whitespace_removes_only_blanks, 12, [std::string::ToString::to_string => to_string_stub, str::parse => parse_stub]) {
+fn go(n: usize, bits: usize) {
     let row = dom::new_node(5);
-    let n = 1 + sym::below(WS_MAXN);
     let mut blank = [false; 4];
     let mut ids = [0u8; 4];
     let mut i = 0;
     while i < 4 {
         if i < n {
-            blank[i] = sym::bool();
+            blank[i] = (bits >> i) & 1 == 1;
             let e = if blank[i] { let e = dom::new_node(4); dom::set_leaf(e, 20); e } else { let e = dom::new_node(0); dom::set_leaf(e, 4); e };
             ids[i] = e.id; row.append_child_id(e.id);
         }
@@ -342,7 +341,7 @@ HARNESS(merge_whitespace_removes_only_blanks, 12, [std::string::ToString::to_str
     let mut children = row.children();
     merge_whitespace(&mut children);                                            // must not panic
     cover!(n >= 3 && blank[0] && blank[1] && !blank[2], "run of two blanks before a token reachable");
-    cover!(n == 3 && blank[2] && !blank[1], "trailing blank reachable");
+    cover!(n >= 3 && blank[n - 1] && !blank[n - 2], "trailing blank reachable");
     // every non-blank child is still there, in order, and nothing was added
     let mut j = 0; let mut k = 0;
     while k < 4 {
@@ -352,6 +351,13 @@ HARNESS(merge_whitespace_removes_only_blanks, 12, [std::string::ToString::to_str
     }
     assert!(j == children.len(), "merging blanks added a child");
 }
+HARNESS(merge_whitespace_removes_only_blanks, 12, [std::string::ToString::to_string => to_string_stub, str::parse => parse_stub]) {
+    // solver-selected concrete rows: every row of 1..WS_MAXN children, each a blank or a token
+    match sym::below(WS_NCASES) {
+WS_ARMS
+        _ => go(1, 0),
+    }
+}
 """
 
 
@@ -359,8 +365,8 @@ def ws_lemma(run):
     c = slicer.Source.get("src/canonicalize.rs")
     f = c.find("fn clean_mathml", "fn merge_whitespace")
     run.uses(f)
-    maxn = 3 if run.tier == "quick" else 4
-    crate = kani_run.Crate("c01ws", prelude.MINIDOM + prelude.TOSTRING_STUB + f.text + WS_SHIM.replace("WS_MAXN", str(maxn)))
+    maxn = 4
+    crate = kani_run.Crate("c01ws", prelude.MINIDOM + prelude.TOSTRING_STUB + f.text + WS_SHIM.replace("WS_ARMS", "\n".join("        %d => go(%d, %d)," % (k, n, bits) for k, (n, bits) in enumerate((n, bits) for n in range(1, maxn + 1) for bits in range(2 ** n)))).replace("WS_NCASES", str(sum(2 ** n for n in range(1, maxn + 1)))).replace("WS_MAXN", str(maxn)))
     run.bound("D-C01-h", "merge_whitespace verbatim on rows of 1..%d children, each a blank mtext (with data-width) or an <mi>x</mi> (model DOM)" % maxn)
     run.assume("model DOM (MINIDOM); every blank mtext carries data-width (invariant established by the mtext arm of clean_mathml); f64 parsing / formatting of the widths stubbed (the number is not the subject)")
 
